@@ -710,6 +710,23 @@ def w_pairs(ctx, case):
 def w_triples(ctx, case):
     r = rng_for(case["seed"], "C18", "triples", case["idx"])
     for _ in range(case["n"]):
+        if r.random() < 0.08:
+            # a conflicting pair behind factors that cancel (m/m.cm, m0.cm, s-1.s.min): the first unit of the kind has been NAMED,
+            # whatever its exponents add up to - every order of the factors must be refused
+            a = r.choice(SPELL)
+            others = [b for b in SPELL if not expect([(a, 1), (b, 1)]).consistent]
+            if others:
+                b = r.choice(others)
+                e = r.choice([1, 2, 3])
+                fs = r.choice([[(a, e), (a, -e), (b, r.choice([1, -1, 2]))], [(a, 0), (b, r.choice([1, -1, 2]))], [(a, 0), (b, 1), (a, 0)]])
+                for p in set(itertools.permutations(fs)):
+                    t = render(list(p), [r.choice("./") for _ in range(len(p) - 1)], False)
+                    if classify_units(t) == "invalid":
+                        ctx.reject("parse_units", t, "two-units-one-base-kind")
+                        ctx.counts["cancelling_conflicts"] = ctx.counts.get("cancelling_conflicts", 0) + 1
+                    else:
+                        ctx.counts["generator_discarded"] += 1
+            continue
         if r.random() < 0.12:
             fs = [(r.choice(SPELL), r.choice(EXPS)) for _ in range(3)]      # mostly inconsistent: must raise
         else:
